@@ -548,7 +548,7 @@ def finding_tags(ans: str) -> list:
     """ids of the listed findings whose trigger predicate (computed by the driver from the input) holds"""
     parts = dict(p.split('=', 1) for p in ans.split(' ') if '=' in p)
     return (['F11d'] if parts.get('inK') == '1' else []) + (['F11n'] if parts.get('inN') == '1' else []) + \
-        (['F11o'] if parts.get('inO') == '1' else []) + (['F11r'] if parts.get('inR') == '1' else [])
+        (['F11o'] if parts.get('inO') == '1' else [])
 
 
 def answer_field(ans: str, key: str):
@@ -1663,8 +1663,7 @@ def body(run: Run) -> int:
         'the XSD/F&O reading in EPV/Spec/Timeline.lean (astronomical years, instants in µs, implicit timezone Z)']
     run.assumptions += [
         'years within ±2^31 and durations within ±2^62 s (constructor limits of the library, accepted)',
-        'known finding F11o: xs:time ± duration whose proxy date leaves years 1..9999 raises FODT0001; known finding F11r: 24:00:00 with a '
-        'fraction that is non-zero only below the microsecond is accepted; '
+        'known finding F11o: xs:time ± duration whose proxy date leaves years 1..9999 raises FODT0001; '
         'known finding F11d: timeline offsets beyond the timedelta range (|days| > 999999999, |year| ≳ 2.7 million) '
         'raise OverflowError (FODT0001 through XPath); theorems carry the hypothesis TdOk',
         'durations: × ÷ by xs:double through the datatypes API uses binary64 products (computed by the harness with Python floats, '
